@@ -10,8 +10,121 @@ package main
 import (
 	"fmt"
 	"go/ast"
+	"sort"
+	"strconv"
 	"strings"
 )
+
+// structWiring renders what the statement-level facts of a component take for granted: the field
+// list of its struct type (name, type text), the import path behind every package qualifier used in
+// a field type (so that `sync.RWMutex` is the standard library's), the other type declarations of
+// the package whose name occurs in a field type (a local `type rwm struct{}` standing in for a lock
+// shows up here and as the field's type), and the receiver of every listed method (`*T` vs `T`: a
+// value receiver locks a copy). Emits <prefix>Fields, <prefix>Imports, <prefix>LocalTypes,
+// <prefix>Receivers.
+func structWiring(typeName, prefix string, methods ...string) func(c *Ctx, s *Site) (string, error) {
+	return func(c *Ctx, s *Site) (string, error) {
+		files, err := c.files(s.Pkg)
+		if err != nil {
+			return "", err
+		}
+		var st *ast.StructType
+		var inFile *ast.File
+		localTypes := map[string]bool{}
+		for _, f := range files {
+			for _, d := range f.Decls {
+				gd, ok := d.(*ast.GenDecl)
+				if !ok {
+					continue
+				}
+				for _, sp := range gd.Specs {
+					ts, ok := sp.(*ast.TypeSpec)
+					if !ok {
+						continue
+					}
+					localTypes[ts.Name.Name] = true
+					if ts.Name.Name == typeName {
+						if x, ok := ts.Type.(*ast.StructType); ok && st == nil {
+							st, inFile = x, f
+						} else {
+							return "", fmt.Errorf("type %s is declared twice or is not a struct", typeName)
+						}
+					}
+				}
+			}
+		}
+		if st == nil {
+			return "", fmt.Errorf("struct type %s not found in %s", typeName, s.Pkg)
+		}
+		q := func(x string) string { return strconv.Quote(x) }
+		var fields, imports, locals, recvs []string
+		quals := map[string]bool{}
+		usedLocal := map[string]bool{}
+		for _, fl := range st.Fields.List {
+			ty := c.Pretty(fl.Type)
+			ast.Inspect(fl.Type, func(n ast.Node) bool {
+				switch x := n.(type) {
+				case *ast.SelectorExpr:
+					if id, ok := x.X.(*ast.Ident); ok {
+						quals[id.Name] = true
+					}
+					return false
+				case *ast.Ident:
+					if localTypes[x.Name] {
+						usedLocal[x.Name] = true
+					}
+				}
+				return true
+			})
+			if len(fl.Names) == 0 {
+				fields = append(fields, fmt.Sprintf("(%s, %s)", q("<embedded>"), q(ty)))
+			}
+			for _, n := range fl.Names {
+				fields = append(fields, fmt.Sprintf("(%s, %s)", q(n.Name), q(ty)))
+			}
+		}
+		var qs []string
+		for k := range quals {
+			qs = append(qs, k)
+		}
+		sort.Strings(qs)
+		for _, k := range qs {
+			path := "<not imported>"
+			for _, im := range inFile.Imports {
+				p, _ := strconv.Unquote(im.Path.Value)
+				name := p[strings.LastIndex(p, "/")+1:]
+				if im.Name != nil {
+					name = im.Name.Name
+				}
+				if name == k {
+					path = p
+				}
+			}
+			imports = append(imports, fmt.Sprintf("(%s, %s)", q(k), q(path)))
+		}
+		var ls []string
+		for k := range usedLocal {
+			ls = append(ls, k)
+		}
+		sort.Strings(ls)
+		for _, k := range ls {
+			locals = append(locals, q(k))
+		}
+		for _, m := range methods {
+			fd, err := c.FindFunc(s.Pkg, typeName+"."+m)
+			if err != nil {
+				return "", err
+			}
+			recvs = append(recvs, fmt.Sprintf("(%s, %s)", q(m), q(c.Pretty(fd.Recv.List[0].Type))))
+		}
+		var b strings.Builder
+		fmt.Fprintf(&b, "/-- fields of `type %s struct` (name, type as written) -/\ndef %sFields : List (String × String) := [%s]\n", typeName, prefix, strings.Join(fields, ", "))
+		fmt.Fprintf(&b, "/-- import path behind every package qualifier used in a field type of `%s` -/\ndef %sImports : List (String × String) := [%s]\n", typeName, prefix, strings.Join(imports, ", "))
+		fmt.Fprintf(&b, "/-- types declared in package %s itself that occur in a field type of `%s` -/\ndef %sLocalTypes : List String := [%s]\n", s.Pkg, typeName, prefix, strings.Join(locals, ", "))
+		fmt.Fprintf(&b, "/-- receiver type of the methods of `%s` the model mirrors -/\ndef %sReceivers : List (String × String) := [%s]\n", typeName, prefix, strings.Join(recvs, ", "))
+		return b.String(), nil
+	}
+}
 
 // groupOrder: the given statement texts occur in the flattened statement list at sel, each after
 // the previous one. A text prefixed with "last:" is located at its last occurrence, the others at
@@ -122,6 +235,9 @@ func init() {
 		return Site{Module: mod, Pkg: pkg, Func: fn, Name: name, Kind: Expr, Sel: "call[make][0].arg[1]", Type: "Int"}
 	}
 	register(
+		// what `g.m`, `g.wg`, `g.ctx`, `g.cancel` are, how NewGroup wires them, pointer receivers
+		cu("", "groupWiring", structWiring("Group", "group", "spawn", "Do", "Stop", "StopAndWait", "Trigger", "Periodic", "PeriodicOrTrigger")),
+		sl("NewGroup", "newGroupStmts", ""),
 		// spawn: RLock -> ctx check (bail: RUnlock, return) -> wg.Add(1) -> RUnlock -> go { f(); wg.Done() }
 		sl("Group.spawn", "spawnStmts", ""),
 		cu("Group.spawn", "spawnAddUnderRLock", groupOrder("", "g.m.RLock()", "if g.ctx.Err() != nil {", "}", "g.wg.Add(1)", "last:g.m.RUnlock()", "go func() {…")),
